@@ -35,3 +35,14 @@ _p("C17", modules=["quic_varint", "quic_frame"], level="proof",
    assumptions=["lemma (not machine-checked): partial sums of positive frame lengths are strictly increasing (used once, at loop exit of parse_frames.wf)",
                 "RFC 9000 19.1 PADDING: a maximal run of 0x00 bytes is treated as one frame of that length"],
    trusted_base=[], not_under_contract=["PseudoVersionNegotiationFrame (not an RFC frame type; not in the dispatch table)"])
+
+_p("C16", modules=["quic_pkn"], level="proof",
+   level_text="get_full_packet_number is proved equal to RFC 9000 A.3 (transcribed over the integers) for every largest < 2^62, every "
+              "encoded length 1-4 and every truncated value, in all 4 packet types x 2 directions; the entry of the packet's own space and "
+              "direction becomes max(old, result) and every other entry of both tables is unchanged; PACKET_TYPE_MAP is checked to put "
+              "0-RTT/1-RTT in one space; QuicDecryptor.decrypt is proved to call the direction's AEAD with iv XOR left-padded packet number.",
+   level_note="float arithmetic (if present in the function) is modelled as integer-valued binary64 with round-half-even to 53 bits (DESIGN 3.2); "
+              "xor is an uninterpreted commutative function; the AEAD object is a recorder (assumed: cryptography's AEAD.decrypt(nonce, data, aad)); "
+              "the call site in decrypt_packet (result passed on unchanged) is covered by C02's contracts, not here",
+   design_ref="DESIGN.md 4 C16", explanation="", assumptions=[], trusted_base=["cryptography AEAD objects: decrypt(nonce, ciphertext, aad) - recorder stand-in"],
+   not_under_contract=["QuicSession.decrypt_packet (call site: passes the result to QuicDecryptor.decrypt)"])
